@@ -5,6 +5,7 @@ package main
 // projection each option profile promises; the printed text must parse and compile alone.
 
 import (
+	"math/rand/v2"
 	"encoding/json"
 	"fmt"
 	"os"
@@ -217,7 +218,7 @@ var c07letRefRe = regexp.MustCompile(`let\[\]: reference "([A-Za-z#][A-Za-z0-9_#
 
 func init() {
 	register("C07", "exploration", func(c *Ctx) {
-		c.Rule = "every program of the C01 generator that evaluates without error (whole file and, for a sample, single fields taken out of their scope so that references must be made self-contained), plus the evaluable import-free sources of the frozen evaluator corpus; for each of the option profiles Concrete(true) (= cue export --out cue; data compared as JSON), Final(), the `cue eval` set (Final, Definitions, Attributes), All(), no options, and Docs+Definitions+Hidden+Optional: Syntax → format.Node → must parse and compile on its own → must evaluate to a value whose observation (projection of the profile: data / final / final+definitions / raw) equals that of the printed value. Runs in isolated worker processes. A sample also goes through the cue binary (cue eval, cue export --out cue, cue def). Non-trivial = distinct error-free program with >= 2 fields for which at least 4 profiles were compared."
+		c.Rule = "every program of the C01 generator that evaluates without error (whole file and, for a sample, single fields taken out of their scope so that references must be made self-contained), plus generated programs that import builtin packages (renamed imports, fields that shadow the package name, validators and incomplete calls that stay in the result), plus the evaluable import-free sources of the frozen evaluator corpus; for each of the option profiles Concrete(true) (= cue export --out cue; data compared as JSON), Final(), the `cue eval` set (Final, Definitions, Attributes), All(), no options, and Docs+Definitions+Hidden+Optional: Syntax → format.Node → must parse and compile on its own → must evaluate to a value whose observation (projection of the profile: data / final / final+definitions / raw) equals that of the printed value. Runs in isolated worker processes. A sample also goes through the cue binary (cue eval, cue export --out cue, cue def). Non-trivial = distinct error-free program with >= 2 fields for which at least 4 profiles were compared."
 		c.Assume = []string{"equivalence is the public-API observation of DESIGN §3.2; docs and attribute text are not compared", "in final/data projections an unresolved disjunction is observed as the set of its distinct projected disjuncts"}
 		if c.Replay != nil {
 			src, _ := c.Replay["program"].(string)
@@ -243,6 +244,25 @@ func init() {
 			}
 			if k < 2 {
 				c.Sample(map[string]any{"program": src})
+			}
+		}
+		// programs that import builtin packages (renamed or not, shadowed by fields of the package's name, used in
+		// validators that stay in the result, in calls that stay incomplete, and in concrete calls): the printed
+		// text has to bring the imports it needs, under names that resolve
+		nImp := c.N(1200, 30000)
+		for k := 0; k < nImp; k++ {
+			r := c.RNG(fmt.Sprintf("imp-%d", k))
+			src := c07importProgram(r)
+			id := fmt.Sprintf("i%d", k)
+			cases = append(cases, bcase{ID: id, Op: "c07rt", Src: src})
+			meta[id] = [3]string{src, "", "gen"}
+			if k%3 == 0 {
+				sub := []string{"x", "y", "a", "b"}[r.IntN(4)]
+				cases = append(cases, bcase{ID: id + "/" + sub, Op: "c07rt", Src: src, Args: map[string]string{"sub": sub}})
+				meta[id+"/"+sub] = [3]string{src, sub, "gen-subvalue"}
+			}
+			if k < 1 {
+				c.Sample(map[string]any{"import_program": src})
 			}
 		}
 		// frozen witnesses of the recorded findings (replayed on every run)
@@ -416,4 +436,93 @@ func c07cli(c *Ctx, meta map[string][3]string, res map[string]*bres) {
 			}
 		}
 	})
+}
+
+// c07importProgram: see the call site.
+func c07importProgram(r *rand.Rand) string {
+	type pkg struct {
+		path, name string
+		validators []string // on a value of kind
+		kind       string
+		calls      []string // incomplete calls over the free variable of that kind (%s)
+		concrete   []string
+	}
+	pkgs := []pkg{
+		{"strings", "strings", []string{"MinRunes(2)", "MaxRunes(5)"}, "string", []string{"ToUpper(%s)", "TrimSpace(%s)", "HasPrefix(%s, \"a\")"}, []string{"ToUpper(\"ab\")", "Repeat(\"a\", 2)"}},
+		{"list", "list", []string{"MaxItems(3)", "MinItems(1)", "UniqueItems()"}, "[...int]", []string{"Sum(%s)", "Max(%s)"}, []string{"Sum([1, 2])", "Sort([2, 1], list.Ascending)"}},
+		{"math", "math", []string{"MultipleOf(2)"}, "int", []string{"Abs(%s)", "Floor(%s)"}, []string{"Abs(-2)", "Floor(2.5)"}},
+		// (struct.MinFields/MaxFields are left out: a struct validator taken out as a sub-value is printed as an
+		// embedding of the output file, which is a struct that satisfies it - the two are not comparable)
+		{"strconv", "strconv", []string{"Atoi(\"12\")"}, "int", []string{"Atoi(\"1\\(%s)\")"}, []string{"FormatInt(12, 10)"}},
+	}
+	r.Shuffle(len(pkgs), func(i, j int) { pkgs[i], pkgs[j] = pkgs[j], pkgs[i] })
+	n := 1 + r.IntN(3)
+	pkgs = pkgs[:n]
+	var b strings.Builder
+	alias := map[string]string{}
+	for _, p := range pkgs {
+		switch r.IntN(4) {
+		case 0:
+			a := []string{"s", "l", "m", "st", "x1"}[r.IntN(5)] + p.name[:1]
+			alias[p.name] = a
+			fmt.Fprintf(&b, "import %s %q\n", a, p.path)
+		default:
+			alias[p.name] = p.name
+			fmt.Fprintf(&b, "import %q\n", p.path)
+		}
+	}
+	free := map[string]string{"string": "vs", "[...int]": "vl", "int": "vi"}
+	b.WriteString("vs: string\nvl: [...int]\nvi: int\n")
+	var decls []string
+	use := func(p pkg) string {
+		a := alias[p.name]
+		// sort.Ascending etc. inside concrete calls keep the package's own name: rewrite to the alias
+		fix := func(t string) string { return strings.ReplaceAll(t, p.name+".", a+".") }
+		switch k := r.IntN(6); {
+		case k < 2:
+			return p.kind + " & " + a + "." + p.validators[r.IntN(len(p.validators))]
+		case k == 2:
+			return a + "." + p.validators[r.IntN(len(p.validators))]
+		case k == 3 && len(p.calls) > 0:
+			return a + "." + fmt.Sprintf(p.calls[r.IntN(len(p.calls))], free[p.kind])
+		case k == 4 && len(p.concrete) > 0:
+			return a + "." + fix(p.concrete[r.IntN(len(p.concrete))])
+		default:
+			return a + "." + p.validators[r.IntN(len(p.validators))] + " & " + a + "." + p.validators[r.IntN(len(p.validators))]
+		}
+	}
+	names := []string{"a", "b", "c", "d", "e", "g"}
+	for i := 0; i < 2+r.IntN(4); i++ {
+		decls = append(decls, fmt.Sprintf("%s: %s", names[i], use(pkgs[r.IntN(len(pkgs))])))
+	}
+	// nested structs in which a field has the name of a package (or of its alias)
+	for _, sn := range []string{"x", "y"} {
+		if r.IntN(3) == 0 {
+			continue
+		}
+		p := pkgs[r.IntN(len(pkgs))]
+		var inner []string
+		if r.IntN(2) == 0 {
+			shadow := p.name
+			if alias[p.name] != p.name && r.IntN(2) == 0 {
+				shadow = alias[pkgs[r.IntN(len(pkgs))].name] + "2"
+			}
+			inner = append(inner, shadow+": string")
+		}
+		for i := 0; i < 1+r.IntN(2); i++ {
+			inner = append(inner, fmt.Sprintf("%s: %s", []string{"p", "q"}[i], use(pkgs[r.IntN(len(pkgs))])))
+		}
+		r.Shuffle(len(inner), func(i, j int) { inner[i], inner[j] = inner[j], inner[i] })
+		decls = append(decls, fmt.Sprintf("%s: {%s}", sn, strings.Join(inner, ", ")))
+	}
+	r.Shuffle(len(decls), func(i, j int) { decls[i], decls[j] = decls[j], decls[i] })
+	b.WriteString(strings.Join(decls, "\n"))
+	b.WriteString("\n")
+	// every import has to be used
+	for _, p := range pkgs {
+		if !strings.Contains(b.String(), alias[p.name]+".") {
+			fmt.Fprintf(&b, "u%s: %s.%s\n", p.name, alias[p.name], p.validators[0])
+		}
+	}
+	return b.String()
 }
